@@ -119,7 +119,7 @@ type Config struct {
 	ParamAbs map[string]Abs
 	// InlineGo analyses `go func(){…}()` closures in place at the spawn point
 	// (events flagged InGo); a panic escaping the goroutine ends only the goroutine.
-	InlineGo  bool
+	InlineGo bool
 	// Keep lists functions that must stay opaque calls (never analysed in place).
 	Keep      map[*ssa.Function]bool
 	MaxPaths  int
@@ -1344,7 +1344,6 @@ func closureMayWrite(fn *ssa.Function, k int) bool {
 	}
 	return false
 }
-
 
 // minLen: a lower bound for the length of slice value s on this path (0 when nothing is known).
 func (st *State) minLen(s *Sym, d int) int64 {
